@@ -405,9 +405,12 @@ def evaluator(ck, rng, V):
                     V("tags of the reloaded calculator differ", {**base, "stage": stage}, key="c13-vm-tags")
                 alltags = [t for tl in d.tags.values() for ts in tl for t in ts]
                 ud = {t: (float(nr.uniform(0.5, 2)), float(nr.uniform(0, 1))) for t in rng.sample(alltags, min(len(alltags), rng.randint(1, 6)))}
-                t0, t1 = d.tags2preene(ud, VERBOSE=True), c.tags2preene(ud, VERBOSE=True)
-                if deep_diff(list(t0), list(t1)):
-                    V("tags2preene of the reloaded calculator differs", {**base, "stage": stage, "usertags": ud}, key="c13-vm-tags2preene")
+                try:
+                    t0, t1 = d.tags2preene(ud, VERBOSE=True), c.tags2preene(ud, VERBOSE=True)
+                    if deep_diff(list(t0), list(t1)):
+                        V("tags2preene of the reloaded calculator differs", {**base, "stage": stage, "usertags": ud}, key="c13-vm-tags2preene")
+                except Exception as e:
+                    V("tags2preene of the reloaded (or original) calculator raises %r" % (e,), {**base, "stage": stage, "usertags": ud}, key="c13-vm-tags2preene-exception")
                 # the index-array loops of addhdf5/loadhdf5 against the model
                 if stage == "before-cache":
                     for sn in ("thermo", "kinetic"):
